@@ -209,6 +209,10 @@ def rule_conc(filter_names=None):
                                 ok = idx is not None and _is_partition_var(wan, wfx, idx)
                                 o.check(ok, prog.pretty[wp], "worker-ptr-write",
                                         "a worker writes through a shared raw pointer at an index that is not its loop variable over its own range", ev["span"])
+            # --- no thread-count dependent shortcut around the parallel section
+            for (x_, sp_) in ap_fast_paths(crate, root, ws):
+                o.check(False, who, "thread-count-fast-path", "a branch on a value derived from available_parallelism() returns a result "
+                        "without running the parallel section: the result is computed differently for some thread counts", sp_)
             # --- ROWS-COMPLETE: a worker may skip a row of an operand only when the row is outside it
             for (sp, sb, skey, wc) in ws:
                 for (ok_, sp_, msg_) in rows_complete(crate, wc):
@@ -417,6 +421,56 @@ def tile_templates(crate, root):
             if ev["key"] == "slice::chunks" and len(ev["args"]) == 2:
                 dc = _chunk_def(crate, an, ev["args"][1])
                 out.append(("chunks-div-ceil", dc is not None, ev["span"], "chunks() size is not div_ceil(n, t)"))
+    return out
+
+
+def ap_fast_paths(crate, root, ws):
+    """[(block, span)]: two-way branches of the root function, outside every loop, whose condition depends on
+    available_parallelism() and one side of which reaches a normal return without ever reaching a spawning block while
+    the other side can reach one"""
+    an = crate.an(root)
+    fx = crate.fx(root)
+    prog = crate.prog
+
+    def mentions_ap(t):
+        if isinstance(t, tuple) and t:
+            if (t[0] == "site" and t[2] == AP_KEY) or (t[0] == "call" and t[1] == AP_KEY):
+                return True
+            if t[0] == "mem" and t[3] is None:
+                v = an.term_of.get((t[1], t[2]))
+                if v is not None and v != t and mentions_ap(v):
+                    return True
+            return any(mentions_ap(x) for x in t if isinstance(x, tuple))
+        return False
+    spawners = {sp for (sp, sb, skey, wc) in ws}
+    spawn_blocks = set()
+    for ev in an.events:
+        if ev["k"] != "call":
+            continue
+        if ev["key"] in SPAWN_KEYS or ev["key"] == SCOPE_KEY:
+            spawn_blocks.add(ev["b"])
+        for a in ev["args"]:
+            if a[0] == "agg" and a[1] == "closure":
+                c = a[2]
+                # the closure (or one nested in it) spawns
+                if any(s == c or (prog.fns.get(s, {}).get("root") == root and s.startswith(c)) for s in spawners):
+                    spawn_blocks.add(ev["b"])
+    out = []
+    if not spawn_blocks:
+        return out
+    for ev in an.events:
+        if ev["k"] != "switch" or an.cfg.loop_of(ev["b"]) is not None or not mentions_ap(ev["discr"]):
+            continue
+        x = ev["b"]
+        sides = []
+        for tg, lab in an.cfg.succ[x]:
+            if tg not in an.cfg.can_return:
+                continue
+            reach = an.cfg.reachable_from(tg)
+            hits = bool(reach & spawn_blocks) or tg in spawn_blocks
+            sides.append(hits)
+        if len(sides) >= 2 and any(sides) and not all(sides):
+            out.append((x, ev["span"]))
     return out
 
 
